@@ -191,7 +191,12 @@ type side struct {
 }
 
 // Run executes one free run and streams its events to stdout.
+func jsonEncoder() *json.Encoder { return json.NewEncoder(os.Stdout) }
+
 func Run(c Case) int {
+	if c.Cfg.Sessions > 1 {
+		return RunIso(c)
+	}
 	cfg := c.Cfg
 	l := &logger{enc: json.NewEncoder(os.Stdout)}
 	rng := rand.New(rand.NewSource(int64(cfg.Seed)*7919 + int64(c.N)))
